@@ -1,76 +1,21 @@
-(* model driver: mirrors harness/src/main.rs — same case lines in, same observation syntax out *)
-open Conv
-
-let fam_varint (t : string array) : string =
-  match t.(0) with
-  | "w" ->
-    (match Varint.write_varint (z_of_dec t.(1)) with
-     | Some e -> "ok " ^ hex_of_bytes e
-     | None -> "panic")
-  | "r" ->
-    (match Varint.read_varint (t.(1) = "1") (bytes_of_hex t.(2)) with
-     | Varint.VOk (v, rest) -> "ok " ^ dec_of_z v ^ " " ^ hex_of_bytes rest
-     | Varint.VErr -> "err"
-     | Varint.VPanic -> "panic")
-  | _ -> failwith "bad varint case"
-
-let sha (b : BinNums.coq_N list) = Sha256.sha256 b
-
-let res_bytes r = match r with
-  | Err.Ok b -> "ok " ^ Util.digest b
-  | Err.Err e -> "err " ^ Util.err_name e
-
-let fam_classic (t : string array) : string =
-  let open Classic in
-  match t.(0) with
-  | "ser" -> res_bytes (node_to_bytes (Util.parse_tree t.(1)))
-  | "serl" -> res_bytes (node_to_bytes_limit (Util.parse_tree t.(2)) (n_of_dec t.(1)))
-  | "de" ->
-    let b = bytes_of_hex t.(1) in
-    (match node_from_stream b with
-     | Err.Ok (tr, rest) -> Printf.sprintf "ok %s %d" (Util.show_tree_short tr) (Stdlib.List.length b - Stdlib.List.length rest)
-     | Err.Err e -> "err " ^ Util.err_name e)
-  | "th" ->
-    let b = bytes_of_hex t.(1) in
-    (match tree_hash_from_stream sha b with
-     | Err.Ok (h, rest) -> Printf.sprintf "ok %s %d" (hex_of_bytes h) (Stdlib.List.length b - Stdlib.List.length rest)
-     | Err.Err e -> "err " ^ Util.err_name e)
-  | "tr" ->
-    let b = bytes_of_hex t.(1) in
-    (match parse_triples sha b with
-     | Err.Ok ((tr, hs), rest) ->
-       let buf = Buffer.create 64 in
-       Stdlib.List.iter (fun x -> match x with
-           | TAtom (s, e, o) -> Buffer.add_string buf (Printf.sprintf "A%s,%s,%s;" (dec_of_n s) (dec_of_n e) (dec_of_n o))
-           | TPair (s, e, o) -> Buffer.add_string buf (Printf.sprintf "P%s,%s,%s;" (dec_of_n s) (dec_of_n e) (dec_of_n o))) tr;
-       let s = Buffer.contents buf in
-       let s = if String.length s <= 300 then s else Printf.sprintf "R#%d:%016Lx" (String.length s) (Util.fnv64 (Util.ints_of_string s)) in
-       let all = Stdlib.List.concat_map Util.ints_of_bytes hs in
-       Printf.sprintf "ok %s %d:%016Lx %d" s (Stdlib.List.length hs) (Util.fnv64 all) (Stdlib.List.length b - Stdlib.List.length rest)
-     | Err.Err e -> "err " ^ Util.err_name e)
-  | "canon" ->
-    (match is_canonical_serialization (bytes_of_hex t.(1)) with
-     | BTrue -> "ok true" | BFalse -> "ok false" | BPanic -> "panic" | BFuel -> "OUT-OF-FUEL")
-  | "tlen" ->
-    (match serialized_length_trusted (bytes_of_hex t.(1)) with
-     | Err.Ok n -> "ok " ^ dec_of_n n | Err.Err e -> "err " ^ Util.err_name e)
-  | "clen" ->
-    (match cache_serialized_length (Util.parse_tree t.(1)) with
-     | Err.Ok n -> "ok " ^ dec_of_n n | Err.Err e -> "err " ^ Util.err_name e)
-  | _ -> "skip"
-
+(* model driver: mirrors harness/src/main.rs — same case lines in, same observation syntax out.
+   Families live in fam_<x>.ml and register themselves in Reg (build.sh links driver.ml last). *)
 let () =
   let fam = Sys.argv.(1) in
-  let f = match fam with
-    | "varint" -> fam_varint
-    | "classic" -> fam_classic
-    | _ -> failwith ("unknown family " ^ fam) in
+  let f = match Hashtbl.find_opt Reg.table fam with
+    | Some f -> f
+    | None -> failwith ("unknown family " ^ fam) in
   try
     while true do
       let line = String.trim (input_line stdin) in
       if line <> "" && line.[0] <> '#' then begin
         let t = Array.of_list (Stdlib.List.filter (fun s -> s <> "") (String.split_on_char ' ' line)) in
-        print_string (f t); print_newline ()
+        let r = try f t with
+          | Stack_overflow -> "crash stack-overflow"
+          | Failure m -> "crash failure " ^ m
+          | Not_found -> "crash not-found"
+          | Invalid_argument m -> "crash invalid-arg " ^ m in
+        print_string r; print_newline ()
       end
     done
   with End_of_file -> ()
